@@ -88,6 +88,8 @@ type Engine struct {
 	globalConsts map[*ssa.Global]*constGlobal
 	callOrdinals map[ssa.Instruction]int
 	rootContract *FuncContract
+	// propID: id of the property being checked ("" in debug runs); see frameOnlyApplies
+	propID string
 }
 
 func NewEngine() *Engine {
